@@ -95,6 +95,9 @@ ShiftLine ==
                     /\ needFetch' = TRUE
                     /\ UNCHANGED <<phase, cs, la, nT, pendR, pendGoto, okay, why, verdict>>
 
+\* the reported outcome of a nested parse started by an action (its own output was cut out by the harness)
+NestNote == /\ Ev("nest") /\ phase = "run"
+            /\ UNCHANGED <<phase, cs, la, nT, istk, stmap, pendR, pendGoto, needFetch, okay, why, verdict>>
 Other == /\ Ev("other") /\ phase = "run"
          /\ IF okay THEN Fail("unrecognised line in the trace output")
             ELSE Fail("")
@@ -108,7 +111,7 @@ EndRun ==
             ELSE why
   /\ UNCHANGED <<cs, la, nT, istk, stmap, pendR, pendGoto, needFetch>>
 
-Next == Reset \/ Fetch \/ Action \/ ReduceLine \/ ShiftLine \/ Other \/ EndRun
+Next == Reset \/ Fetch \/ Action \/ ReduceLine \/ ShiftLine \/ Other \/ NestNote \/ EndRun
 Spec == Init /\ [][Next]_vars
 
 TraceAccepted == TLCGet("stats").distinct = Len(Trace) + Cardinality(Starts)
